@@ -145,6 +145,16 @@ Theorem C02_coordNum_pairlist : forall r0 r0v en ed tol cell g1 g2,
 Proof. intros. split; [apply coordnum_pairlist_exact | intros; apply coordnum_pairlist_le; assumption]. Qed.
 Print Assumptions C02_coordNum_pairlist.
 
+(* the pair lists of selfCoordNum (pairs i < j) and of coordNum with group2CenterOnly (atom, centre of group2): built
+   at the current positions they reproduce the full value exactly *)
+Theorem C02_pairlist_selfCoordNum_center : forall r0 r0v en ed tol cell g g1 g2, 0 <= tol ->
+  pl_value_pts Rops (pl_build_pts Rops r0 None en ed tol cell (self_pts g)) r0 None en ed tol cell (self_pts g) =
+  cv_selfcoordnum Rops r0 en ed tol cell g /\
+  pl_value_pts Rops (pl_build_pts Rops r0 r0v en ed tol cell (center_pairs Rops g1 g2)) r0 r0v en ed tol cell (center_pairs Rops g1 g2) =
+  cv_coordnum_center Rops r0 r0v en ed tol cell g1 g2.
+Proof. intros. split; [apply selfcoordnum_pairlist_exact | apply coordnum_center_pairlist_exact]; assumption. Qed.
+Print Assumptions C02_pairlist_selfCoordNum_center.
+
 (* the pair list as state over steps and run boundaries (pl_step: rebuilt when the RELATIVE step is a multiple of
    pairListFrequency, used as it is otherwise; pl_session: every run starts at relative step 0 with whatever list the
    previous run left, also garbage).  (1) at every rebuild step, in particular at the first step of every run, the value
